@@ -57,7 +57,7 @@ def gen_ops(rng, manual_exit):
         if r < 0.4:
             ops.append(['next'])
         elif r < 0.6:
-            ops.append(['send', rng.choice([None, 5, 6])])
+            ops.append(['send', rng.choice([None, 5, 6, 0, 0])])     # 0: a sent value that is falsy is still a sent value
         elif r < 0.85:
             ops.append(['throw', rng.choice([3, 4, 5, 1, 6, 7] + ([0] if manual_exit else []))])
         else:
@@ -105,7 +105,7 @@ def run(ctx):
     ctx.rule = ('generator bodies as finite automata of 1-4 states (per state: next, send and thrown GeneratorExit / ValueError / KeyError '
                 'each yield-and-move, return or raise; other exceptions propagate; never a yield on GeneratorExit), as async generators '
                 '(return annotated or only a parameter annotated), sync generators and coroutines; 1-8 operations per run among next, '
-                'send(None|value), throw of 4 classes, close; a separate stream throws GeneratorExit by hand; non-trivial = >= 3 operations '
+                'send(None | value, incl. the falsy 0), throw of 4 classes, close; a separate stream throws GeneratorExit by hand; non-trivial = >= 3 operations '
                 'with a throw or close; distinct = distinct (table, operations)')
     ctx.assumptions += ['CPython\'s own `yield from` and `await` delegation (sync generators, coroutines) is compared, not modelled',
                         'yielded and sent values are small integers; the checks of yielded / returned values against the annotation are '
